@@ -1,12 +1,13 @@
 """C09 — order laws of Goal::total_order and InsertionCost (plugin for tools/verif.py)."""
-from coqterm import zlist
+from coqterm import z, zlist
 from props.floats import bits, of_bits, any_bits, SPECIAL, SIGN
 
 ID = 'C09'
 HARNESS = 'c09'
-COQ_IMPORTS = 'From VRP Require Import Base.Tac Base.TotalCmp Model.CostOrder Model.GoalCtx.'
-MODEL_TARGETS = ['theories/Model/CostOrder.vo', 'theories/Model/GoalCtx.vo']
+COQ_IMPORTS = 'From VRP Require Import Base.Tac Base.TotalCmp Model.CostOrder Model.InsCost Model.GoalCtx.'
+MODEL_TARGETS = ['theories/Model/CostOrder.vo', 'theories/Model/InsCost.vo', 'theories/Model/GoalCtx.vo']
 SUBSTREAMS = ['c09_reader']      # goals read by the real pragmatic reader from the `objectives` section (every multi-objective strategy)
+SHARD = 100
 SIZES = {'quick': 1500, 'thorough': 30000, 'search': 30000}
 RULE = ('cases: InsertionCost pairs/triples (lengths 0-8, components from the float corpus: +-0, denormals, +-inf, NaN '
         'payloads, 2^53+-1, random bit patterns; second operand often a perturbed/padded copy of the first), exact-domain '
@@ -66,15 +67,53 @@ def gen_goal_spec(rng, nf, flags):
         return {'via': 0, 'layers': [[0, [i]] for i in idxs]}
     layers = []
     for _ in range(rng.range(0 if rng.chance(1, 30) else 1, 4)):
-        if rng.chance(2, 3):
+        if rng.chance(3, 5):
             layers.append([0, [rng.below(nf)]])
+        elif rng.chance(1, 2):
+            # add_multi with the comparator / estimate of strategy `sum` (rarely over no objective at all)
+            layers.append([1, [rng.below(nf) for _ in range(rng.range(0 if rng.chance(1, 8) else 1, 3))]])
         else:
-            layers.append([1, [rng.below(nf) for _ in range(rng.range(1, 3))]])
+            # ... of strategy `weighted-sum`; rarely fewer weights than objectives (weights[idx] panics inside estimate)
+            idxs = [rng.below(nf) for _ in range(rng.range(1, 3))]
+            nw = len(idxs) + (rng.choice([-1, 1]) if rng.chance(1, 10) else 0)
+            layers.append([2, idxs, s(gen_weight(rng) for _ in range(nw))])
     return {'via': 1, 'layers': layers}
+
+
+def gen_weight(rng):
+    k = rng.below(8)
+    if k < 5:
+        return bits(rng.choice([0.1, 0.3, 0.5, 0.7, 1.0, 2.0, 10.0, -1.0, 1e-3, 1e6]))
+    if k < 6:
+        return rng.choice([0, SIGN, bits(1.0)])
+    return any_bits(rng)
+
+
+def gen_estimates(rng, nf):
+    k = rng.below(4)
+    if k == 0:
+        return [bits(float(rng.range(-1000, 1000))) for _ in range(nf)]
+    if k == 1:
+        return [bits(rng.range(-10**9, 10**9) / 1024.0) for _ in range(nf)]
+    if k == 2:
+        return [bits(rng.choice([0.1, 0.2, 0.3, 1e16, 1.0, -1e16, 1e308, -1e308, 5e-324, 3.3])) for _ in range(nf)]
+    return [any_bits(rng) for _ in range(nf)]
 
 
 def spec_single_only(spec):
     return spec is None or all(l[0] == 0 for l in spec['layers'])
+
+
+def gen_choose(rng):
+    """candidate insertion results folded by InsertionResult::choose_best_result: [kind, tag | code, cost]"""
+    base = vec(rng, 4)
+
+    def one():
+        if rng.chance(1, 4):
+            return [0, rng.choice([-1, -1, 1, 2, 7]), []]
+        c = base if rng.chance(1, 3) else (perturb(rng, base) if rng.chance(1, 2) else vec(rng, 4))
+        return [1, rng.below(8), s(c)]
+    return {'op': 'choose', 'init': [0, -1, []] if rng.chance(1, 2) else one(), 'rs': [one() for _ in range(rng.range(0, 6))]}
 
 
 def gen_gctx(rng):
@@ -95,7 +134,8 @@ def gen_gctx(rng):
     for _ in range(rng.range(0, 3)):
         i = rng.below(nf)
         b[i] = rng.choice([rng.choice(POOL), any_bits(rng), a[i] ^ SIGN, (a[i] + 1) & 0xFFFFFFFFFFFFFFFF])
-    return {'op': 'gctx', 'flags': flags, 'main': main, 'alts': alts, 'paths': paths, 'a': s(a), 'b': s(b)}
+    return {'op': 'gctx', 'flags': flags, 'main': main, 'alts': alts, 'paths': paths, 'a': s(a), 'b': s(b),
+            'e': s(gen_estimates(rng, nf))}
 
 
 def generate(rng, tier, n):
@@ -105,7 +145,7 @@ def generate(rng, tier, n):
         if r < 32:
             a = vec(rng)
             b = perturb(rng, a) if rng.chance(2, 3) else vec(rng)
-            cases.append({'op': 'icost', 'a': s(a), 'b': s(b), 'exact': False})
+            cases.append({'op': 'icost', 'a': s(a), 'b': s(b), 'exact': False, 'idx': rng.below(len(a) + 2)})
         elif r < 47:
             # lengths 0-9: InsertionCost keeps up to 6 components inline and spills longer vectors to the heap, and the
             # operands of + and - may have any two lengths (the shorter one is padded with zeros)
@@ -119,7 +159,7 @@ def generate(rng, tier, n):
             if rng.chance(1, 4) and va:
                 va[rng.below(len(va))] = 0
             cases.append({'op': 'icost', 'a': s(bits(float(v)) for v in va), 'b': s(bits(float(v)) for v in vb),
-                          'exact': True, 'va': s(va), 'vb': s(vb)})
+                          'exact': True, 'va': s(va), 'vb': s(vb), 'idx': rng.below(la + 2)})
         elif r < 58:
             a = vec(rng, 5)
             b = perturb(rng, a)
@@ -139,6 +179,8 @@ def generate(rng, tier, n):
                 i = rng.below(w)
                 b[i] = rng.choice([any_bits(rng), a[i] ^ SIGN, (a[i] + 1) & 0xFFFFFFFFFFFFFFFF])
             cases.append({'op': 'goal', 'layers': layers, 'a': s(a), 'b': s(b)})
+        elif r < 98:
+            cases.append(gen_choose(rng))
         else:
             cases.append({'op': 'dominance', 'orders': [rng.range(-1, 1) for _ in range(rng.below(6))]})
     return cases
@@ -164,6 +206,19 @@ def corpus():
          'a': s([bits(-1.0), bits(-1.0), bits(-1.0)]), 'b': s([bits(-1.0), nz, bits(-1.0)])},
         {'op': 'gctx', 'flags': [1, 1, 1], 'main': None, 'alts': [{'via': 1, 'layers': [[1, [1, 2]], [0, [0]]]}],
          'paths': [[], [[1, 0]], [[1, 1]]], 'a': s([one, bits(2.0), one]), 'b': s([one, one, bits(2.0)])},
+        # estimates: a `sum` layer over nothing (-0.0), over one -0.0, a weighted layer (0.1*3 + 0.2*10 in f64), too few weights
+        {'op': 'gctx', 'flags': [1, 1, 1],
+         'main': {'via': 1, 'layers': [[1, []], [1, [0]], [2, [1, 2], s([bits(3.0), bits(10.0)])], [0, [2]], [2, [0, 1], s([one])]]},
+         'alts': [], 'paths': [[], [[1, 0]]], 'a': s([one, one, one]), 'b': s([one, one, bits(2.0)]), 'e': s([nz, bits(0.1), bits(0.2)])},
+        # InsertionCost: not IEEE equality (NaN == NaN, -0.0 != +0.0, [] == [+0.0] but [] != [-0.0]); max_value is not a top element
+        {'op': 'icost', 'a': s([nan]), 'b': s([nan]), 'exact': False, 'idx': 0},
+        {'op': 'icost', 'a': s([nz]), 'b': s([z]), 'exact': False, 'idx': 1},
+        {'op': 'icost', 'a': s([0x7FF0000000000000]), 'b': s([0x7FEFFFFFFFFFFFFF]), 'exact': False, 'idx': 0},
+        {'op': 'icost', 'a': s([0x7FEFFFFFFFFFFFFF, 1]), 'b': s([0x7FEFFFFFFFFFFFFF]), 'exact': False, 'idx': 5},
+        {'op': 'icost', 'a': s([bits(1e16), nz, bits(0.1)]), 'b': s([one, z, bits(0.2), bits(-3.5)]), 'exact': False, 'idx': 2},
+        # choose_best_result: ties keep the left result, an unknown failure on the right never replaces the left one
+        {'op': 'choose', 'init': [0, -1, []], 'rs': [[1, 0, s([one])], [1, 1, s([one, z])], [1, 2, s([one, nz])], [0, 3, []]]},
+        {'op': 'choose', 'init': [0, 5, []], 'rs': [[0, -1, []], [0, 7, []]]},
     ]
 
 
@@ -174,26 +229,38 @@ def ints(xs):
 def model_term(c):
     op = c['op']
     if op == 'icost':
-        t = '(run_icost %s %s, run_icost %s %s' % (zlist(ints(c['a'])), zlist(ints(c['b'])), zlist(ints(c['b'])), zlist(ints(c['a'])))
+        # every literal is written once (parsing a 64-bit literal costs Coq about a millisecond)
+        t = '((fun a b : list Z => (run_icost a b, run_icost b a'
         if c.get('exact'):
-            t += ', run_icost_arith %s %s)' % (zlist(ints(c['va'])), zlist(ints(c['vb'])))
+            t += ', run_icost_arith %s %s' % (zlist(ints(c['va'])), zlist(ints(c['vb'])))
         else:
-            t += ', @nil (list Z))'
+            t += ', @nil (list Z)'
+        # the whole API on the bit patterns and f64 + / - on every pattern
+        t += ', (run_icost_api a b %d, run_icost_arithF a b, run_icost_ident a, run_select a b))) %s %s)' % (
+            c.get('idx', 0), zlist(ints(c['a'])), zlist(ints(c['b'])))
         return t
+    if op == 'choose':
+        def ir(r):
+            return '(%d, %s, %s)' % (r[0], z(r[1]), zlist(ints(r[2])))
+        return 'run_choose %s [%s]' % (ir(c['init']), '; '.join(ir(r) for r in c['rs']))
     if op == 'icost3':
         a, b, cc = (zlist(ints(c[k])) for k in 'abc')
-        return '(run_icost %s %s ++ run_icost %s %s ++ run_icost %s %s ++ run_icost %s %s ++ run_icost %s %s)' % (a, b, b, cc, a, cc, b, a, a, a)
+        return ('((fun a b c : list Z => run_icost a b ++ run_icost b c ++ run_icost a c ++ run_icost b a ++ run_icost a a) '
+                '%s %s %s)' % (a, b, cc))
     if op == 'goal':
         return 'run_goal %s %s %s' % (zlist(c['layers']), zlist(ints(c['a'])), zlist(ints(c['b'])))
     if op == 'dominance':
         return 'run_dominance %s' % zlist(c['orders'])
     if op == 'gctx':
         def spec(g):
-            return '(%d, [%s])' % (g['via'], '; '.join('(%d, %s)' % (l[0], zlist(l[1])) for l in g['layers']))
+            return '(%d, [%s])' % (g['via'], '; '.join('(%d, %s, %s)' % (l[0], zlist(l[1]), zlist(ints(l[2])) if len(l) > 2 else '[]')
+                                                       for l in g['layers']))
         main = 'None' if c['main'] is None else '(Some %s)' % spec(c['main'])
         paths = '[' + '; '.join('[' + '; '.join('(%d, %d)' % (h, d) for h, d in p) + ']' for p in c['paths']) + ']'
-        return 'run_gctx %s %s [%s] %s %s %s' % (zlist(c['flags']), main, '; '.join(spec(g) for g in c['alts']), paths,
-                                               zlist(ints(c['a'])), zlist(ints(c['b'])))
+        alts = '(%s : list gspec)' % ('[' + '; '.join(spec(g) for g in c['alts']) + ']')
+        return ('((fun (fl : list Z) (mn : option gspec) (al : list gspec) (ps : list (list (Z * Z))) => '
+                '(run_gctx fl mn al ps %s %s, run_gctx_est fl mn al ps %s)) %s %s %s %s)' % (
+                    zlist(ints(c['a'])), zlist(ints(c['b'])), zlist(ints(c.get('e', []))), zlist(c['flags']), main, alts, paths))
 
 
 def fvals(bs):
@@ -210,8 +277,36 @@ def compare(c, impl, model):
     if 'panic' in impl:
         return 'implementation panicked: %s' % impl['panic']
     op = c['op']
+    if op == 'choose':
+        got = [int(x) for x in impl['chosen']]
+        if got != model:
+            return 'choose_best_result: impl %s model %s' % (got, model)
+        if impl['via_selector'] != impl['chosen']:
+            return 'BestResultSelector::select_insertion differs from choose_best_result'
+        return None
     if op == 'icost':
-        ab, ba, arith = model
+        ab, ba, arith, (api, arithf, ident, select) = model
+        iapi = [[int(x) for x in row] for row in impl['api']]
+        if iapi != api:
+            k = next(i for i in range(len(api)) if iapi[i] != api[i])
+            return ('api field %d ([cmp,eq,ne,partial_cmp,lt,le,gt,ge] / x[idx] / cmp with max_value, default / iter(from_iter) / max_value / '
+                    'default): impl %s model %s' % (k, iapi[k], api[k]))
+        if [int(x) for x in impl['into_iter']] != ints(c['a']):
+            return 'into_iter does not give back the components'
+        for k, name in enumerate(['x+y', 'x-y', '(x+y)-y', '(x-y)+y']):
+            got = [int(x) for x in impl['arith'][k]]
+            if got != arithf[k]:
+                return 'f64 %s: impl %s model %s' % (name, got, arithf[k])
+        for k, name in enumerate(['x+default', 'x-default', 'default+x', 'default-x']):
+            got = [int(x) for x in impl['ident'][k]]
+            if got != ident[k]:
+                return 'f64 %s: impl %s model %s' % (name, got, ident[k])
+        ow = impl['owned']
+        if ow[0] != impl['arith'][0] or ow[2] != impl['arith'][0] or ow[4] != impl['arith'][0] or \
+           ow[1] != impl['arith'][1] or ow[3] != impl['arith'][1] or ow[5] != impl['arith'][1]:
+            return 'the by-value + / - operators differ bitwise from the by-reference ones'
+        if impl['select'] != select:
+            return 'select_cost: impl %s model %s' % (impl['select'], select)
         if [impl['cmp']] != ab:
             return 'cmp: impl %s model %s' % (impl['cmp'], ab)
         if impl['eq'] != (ab == [0]):
@@ -239,7 +334,13 @@ def compare(c, impl, model):
     if op == 'dominance':
         return None if impl['ord'] == model else 'impl %s model %s' % (impl['ord'], model)
     if op == 'gctx':
+        model, mest = model
         got = [[int(x) for x in row] for row in impl['obs']]
+        if 'err' not in impl:
+            gest = [[int(x) for x in row] for row in impl['est']]
+            if gest != mest:
+                k = next((i for i in range(min(len(gest), len(mest))) if gest[i] != mest[i]), 0)
+                return 'estimate, path %s: impl %s model %s' % (c['paths'][k] if k < len(c['paths']) else '?', gest[k:k + 1], mest[k:k + 1])
         if got != model:
             if len(got) != len(model):
                 return 'builder: impl %s (%s) model %s' % (got[:1], impl.get('err', ''), model[:1])
@@ -251,10 +352,13 @@ def compare(c, impl, model):
 def oracle(c, impl):
     """the order laws evaluated directly on the implementation's answers"""
     if 'panic' in impl:
-        return {'class': 'panic', 'what': 'comparison panicked: ' + impl['panic']}
+        return [{'class': 'panic', 'what': 'comparison panicked: ' + impl['panic']}]
     op = c['op']
     v = []
+    if op == 'choose':
+        v += oracle_choose(c, impl)
     if op == 'icost':
+        v += oracle_icost_api(c, impl)
         if c.get('exact') and impl['addsub_cmp'] != 0:
             v.append({'class': 'addsub', 'what': '(x+y)-y != x on integer-valued cost vectors'})
         if c.get('exact') and impl.get('subadd_cmp', 0) != 0:
@@ -304,6 +408,94 @@ def oracle(c, impl):
     return v
 
 
+def small_ints(bs):
+    """the integer values of the components when all of them are integer-valued doubles of magnitude <= 2^51 (both zeros allowed)"""
+    out = []
+    for b in bs:
+        x = of_bits(int(b))
+        if x != x or abs(x) > 2.0**51 or x != int(x):
+            return None
+        out.append(int(x))
+    return out
+
+
+def pad(xs, n):
+    return list(xs) + [0] * (n - len(xs))
+
+
+def keyvec(bs, n):
+    return [tkey(int(b)) for b in pad([int(b) for b in bs], n)]
+
+
+def tkey(b):
+    return b if b < SIGN else -(b - SIGN) - 1
+
+
+def pycmp(a, b):
+    """reference: lexicographic comparison of the total_cmp keys, the shorter vector padded with +0.0"""
+    n = max(len(a), len(b))
+    ka, kb = keyvec(a, n), keyvec(b, n)
+    return (ka > kb) - (ka < kb)
+
+
+def oracle_icost_api(c, impl):
+    v = []
+    cmp_, eq, ne, pc, lt, le, gt, ge = [int(x) for x in impl['api'][0]]
+    shape = 'equal-length' if len(c['a']) == len(c['b']) else 'different-length'
+    if eq != (1 if cmp_ == 0 else 0) or ne != 1 - eq:
+        v.append({'class': 'icost-eq-vs-cmp/' + shape, 'what': '== / != of InsertionCost disagree with cmp: cmp %d, eq %d, ne %d' % (cmp_, eq, ne)})
+    if pc != cmp_ or [lt, le, gt, ge] != [int(cmp_ < 0), int(cmp_ <= 0), int(cmp_ > 0), int(cmp_ >= 0)]:
+        v.append({'class': 'icost-partial-ord-vs-cmp/' + shape,
+                  'what': 'partial_cmp / < / <= / > / >= disagree with cmp: cmp %d, partial_cmp %d, [lt,le,gt,ge] %s' % (cmp_, pc, [lt, le, gt, ge])})
+    if cmp_ != pycmp(c['a'], c['b']):
+        v.append({'class': 'icost-lex/' + shape, 'what': 'cmp is not the lexicographic comparison with missing trailing components counted as zero'})
+    if impl['select'][0] != int(cmp_ < 0):
+        v.append({'class': 'select-cost-vs-cmp', 'what': 'select_cost prefers the left cost although it is not smaller (or the converse)'})
+    # addition and subtraction are inverse up to the sign of zero: integer-valued components (also -0.0) below 2^51
+    va, vb = small_ints(c['a']), small_ints(c['b'])
+    if va is not None and vb is not None:
+        n = max(len(va), len(vb))
+        for k, name in ((2, '(x+y)-y'), (3, '(x-y)+y')):
+            got = [zk(x) for x in impl['arith'][k]]
+            if len(got) != n or got != [zk(x) for x in pad([int(x) for x in c['a']], n)]:
+                v.append({'class': 'addsub-signed-zero' if k == 2 else 'subadd-signed-zero',
+                          'what': '%s differs from x by more than the sign of a zero on integer-valued cost vectors' % name})
+    # Default (no components) is neutral: x - default is x bit for bit, x + default is x up to the sign of zero (NaN-free x)
+    if not any(isnan_bits(int(x)) for x in c['a']):
+        xa = [int(x) for x in c['a']]
+        if [int(x) for x in impl['ident'][1]] != xa:
+            v.append({'class': 'default-not-neutral/sub', 'what': 'x - InsertionCost::default() is not x'})
+        if [zk(x) for x in impl['ident'][0]] != [zk(x) for x in xa] or [zk(x) for x in impl['ident'][2]] != [zk(x) for x in xa]:
+            v.append({'class': 'default-not-neutral/add', 'what': 'x + default (or default + x) differs from x by more than the sign of a zero'})
+    return v
+
+
+def isnan_bits(b):
+    return (b & 0x7FFFFFFFFFFFFFFF) > 0x7FF0000000000000
+
+
+def oracle_choose(c, impl):
+    """the chosen result is a success whenever one is offered, and then no offered success is strictly cheaper; among the cheapest the
+    first offered one wins"""
+    v = []
+    offered = [c['init']] + c['rs']
+    succ = [r for r in offered if r[0] == 1]
+    got = [int(x) for x in impl['chosen']]
+    if succ:
+        if got[0] != 1:
+            return [{'class': 'choose-failure-over-success', 'what': 'a failure was chosen although a success was offered'}]
+        cost = got[2:]
+        if any(pycmp(r[2], cost) < 0 for r in succ):
+            v.append({'class': 'choose-not-minimal', 'what': 'an offered success is strictly cheaper than the chosen one'})
+        else:
+            first = next(r for r in succ if pycmp(r[2], cost) == 0)
+            if first[1] != got[1]:
+                v.append({'class': 'choose-tie-order', 'what': 'among equally cheap successes not the first offered one was chosen'})
+    elif got[0] != 0:
+        v.append({'class': 'choose-success-from-nothing', 'what': 'a success was chosen although none was offered'})
+    return v
+
+
 def zk(b):
     b = int(b)
     if b in (0, SIGN):
@@ -321,6 +513,8 @@ def nontrivial_key(c, impl):
         return None
     if c['op'] == 'goal':
         return ('goal', tuple(c['layers']), tuple(c['a']), tuple(c['b'])) if len(c['layers']) > 1 else None
+    if c['op'] == 'choose':
+        return ('choose', str(c['init']), str(c['rs'])) if sum(1 for r in c['rs'] if r[0] == 1) > 1 else None
     if c['op'] == 'gctx':
         if 'err' in impl:
             return None
